@@ -218,7 +218,7 @@ static Values make_values(int variant)
     tags = ""; nargs = "";
     break;
   case 2: // braces / percent signs / pattern look-alikes in values
-    path = "/p{}/%(x)/f{0}.cpp"; line = "9"; func = "fn{}%(message)"; level = "{LVL}"; code = "%"; logger = "lg{}%(time)";
+    path = "C:/p{}/%(x):2/f{0}.cpp"; line = "9"; func = "fn{}%(message)"; level = "{LVL}"; code = "%"; logger = "lg{}%(time)";
     tid = "{1}"; tname = "%(thread_name)"; pid = "{{}}"; msg = "m {} %( %% }{ {0} {name}"; tags = "#{} %"; nargs = "k{}: v%(";
     break;
   default: // very long
@@ -546,7 +546,7 @@ static int run_e2e(vf::Args const& a)
             {
               s1->lines.clear();
               if (s2) s2->lines.clear();
-              std::string file = "/rt/dir/rfile.cpp", func = "rfunc";
+              std::string file = "/rt:1/dir/rfile.cpp", func = "rfunc";
               uint32_t line = 77;
               static constexpr MacroMetadata md_plain{"/ct/dir/cfile.cpp:55", "cfunc", "{}", "#t ", LogLevel::Warning, MacroMetadata::Event::Log};
               static constexpr MacroMetadata md_named{"/ct/dir/cfile.cpp:55", "cfunc", "{msg}", "#t ", LogLevel::Warning, MacroMetadata::Event::Log};
@@ -568,7 +568,7 @@ static int run_e2e(vf::Args const& a)
               v.v[4] = "W";
               v.v[5] = runtime_md ? "77" : "55";
               v.v[6] = lname;
-              v.v[7] = runtime_md ? "/rt/dir/rfile.cpp" : "/ct/dir/cfile.cpp";
+              v.v[7] = runtime_md ? "/rt:1/dir/rfile.cpp" : "/ct/dir/cfile.cpp";
               v.v[8] = tid;
               v.v[9] = tname;
               v.v[10] = pid;
